@@ -31,13 +31,14 @@ Result.calls[r]    list of [name, peer] (peer = dest / source / root; None for a
 Result.descs[r]    parallel list: type name of the pickled payload for send/bcast-root, "" otherwise
 Result.order       global firing order: ["p2p", sender, receiver, kind] | ["coll", name, root]
 Result.deadlock    None | {"blocked": {rank: [name, peer]}, "finished": [...], "failed": [...]}
-Result.timed_out   bool
+Result.timed_out   bool (wall-clock limit; scale limits with `load_factor()` so that a loaded machine does not look like a hang)
 Result.ok          all ranks returned normally
 
 `comm.sub(k)` (coop mode only) returns a communicator over ranks 0..k-1 (None on the others): lets one run exercise
 several task counts.
 FakeComm implements what NIFTy uses: Get_size, Get_rank, send, recv, Send, Recv, bcast, Bcast, allgather,
-allreduce (SUM = Python `+`, folded in rank order), Barrier, gather, and `mark(label)`.
+allreduce (SUM = Python `+`, reduced along a tree whose shape and rank order change from call to call — the same on
+all ranks —, as an MPI library may do), Barrier, gather, and `mark(label)`.
 Inside the children a stub module `mpi4py.MPI` is installed (`Intracomm = FakeComm`, `COMM_WORLD = comm`) so that
 `isinstance(comm, mpi4py.MPI.Intracomm)` checks in the library pass.
 """
@@ -127,10 +128,22 @@ class FakeComm:
         if op is not None:
             raise FakeMPIError("only the default SUM is supported")
         vals = [pickle.loads(b) for b in self._call("allreduce", None, pickle.dumps(obj))]
-        res = vals[0]
-        for v in vals[1:]:
-            res = res + v
-        return res
+        # MPI libraries reduce along a tree of their own choosing: the order of a non-commutative `+` (lists!) is not
+        # rank order in general.  Every call uses another rank order and tree shape — the same one on all ranks (the
+        # counter advances identically everywhere because collectives are called in the same sequence).
+        k = self.__dict__.get("_nreduce", 0)
+        self.__dict__["_nreduce"] = k + 1
+        n = len(vals)
+        order = [(i + k) % n for i in range(n)]
+        if k % 2:
+            order.reverse()
+
+        def tree(idx):
+            if len(idx) == 1:
+                return vals[idx[0]]
+            cut = 1 + (k % (len(idx) - 1)) if len(idx) > 2 else 1
+            return tree(idx[:cut]) + tree(idx[cut:])
+        return tree(order)
 
     def bcast(self, obj=None, root=0):
         pl = pickle.dumps(obj) if self._rank == root else None
@@ -157,6 +170,7 @@ class Result:
         self.order = []
         self.deadlock = None
         self.timed_out = False
+        self.cpu_s = None           # CPU seconds the rank process(es) used, known when the run was stopped by the time limit
         self.returned = [False] * n
 
     @property
@@ -217,6 +231,26 @@ def _child(rank, size, conn, fn, args, quiet):
             conn.close()
         finally:
             os._exit(code)
+
+
+_LOAD_FACTOR = None
+
+
+def _nop(comm):
+    comm.Barrier()
+    return comm.Get_rank()
+
+
+def load_factor():
+    """how much slower than an idle machine are we right now?  (wall time of a trivial 2-rank run / 0.15 s, clamped to
+    [1, 40]; measured once per process).  Callers multiply their wall-clock limits with it: a genuine hang still hits the
+    limit, an overloaded machine does not produce a spurious 'does not complete'."""
+    global _LOAD_FACTOR
+    if _LOAD_FACTOR is None:
+        t0 = time.time()
+        run(2, _nop, timeout=600.0)
+        _LOAD_FACTOR = min(40.0, max(2.0, (time.time() - t0) / 0.15))
+    return _LOAD_FACTOR
 
 
 def run(nranks, fn, *args, seed=None, timeout=120.0, quiet=True, mode="coop"):
@@ -403,16 +437,19 @@ def _run_coop(nranks, fn, args, seed, timeout, quiet):
                 res = None
     finally:
         pc.close()
+        cpu = None
         try:
-            done, _ = os.waitpid(pid, os.WNOHANG)
+            done, _, ru = os.wait4(pid, os.WNOHANG)
             if done == 0:
                 os.kill(pid, 9)
-                os.waitpid(pid, 0)
+                _, _, ru = os.wait4(pid, 0)
+            cpu = ru.ru_utime + ru.ru_stime
         except ChildProcessError:
             pass
     if isinstance(res, Result):
         return res
     out = Result(nranks)
+    out.cpu_s = cpu
     if res is None:
         out.timed_out = True
         out.deadlock = dict(blocked={}, finished=[], failed=[], note="no result within the time limit (or child died)")
